@@ -158,7 +158,9 @@ fn run_schedule(tpl: &Template, case: &Case, prefix: &[usize]) -> RunOut {
         let mut nd = Node::open(&p, NodeOpts::default()).await;
         let mut out = RunOut { widths: vec![], acts: vec![], violations: vec![], stream: vec![] };
         // rows the batches will update
-        let nrows = case.n.max(1);
+        // one row more than the gated batch touches: the ungated follow-up change updates that row,
+        // so it cannot paper over a lost change of the batch
+        let nrows = case.n.max(1) + 1;
         let ins: Vec<Statement> = (1..=nrows).map(|i| Statement::Simple(format!("INSERT INTO t (id,a) VALUES ({i},'r{i}')"))).collect();
         let (st, _b, _bc) = nd.write(ins, None).await;
         assert_eq!(st, 200);
@@ -342,7 +344,7 @@ fn run_schedule(tpl: &Template, case: &Case, prefix: &[usize]) -> RunOut {
         RELEASE_C.store(true, SeqCst);
         // ---- a follow-up change, produced and forwarded without gates
         let before = batch_done_count(&id);
-        write_and_hand_over(&mut nd, "UPDATE t SET a = a || '!' WHERE id = 1".to_string()).await;
+        write_and_hand_over(&mut nd, format!("UPDATE t SET a = a || '!' WHERE id = {nrows}")).await;
         handle.changes_tx().send(barrier_cand()).await.unwrap();
         let start = Instant::now();
         while batch_done_count(&id) == before {
